@@ -224,7 +224,7 @@ fn hexstring_parser<I: U8Input>(i: I) -> SimpleResult<I, Vec<u8>> {
 
 fn hostname_parser<I: U8Input>(i: I) -> SimpleResult<I, Vec<u8>> {
     let mut label_len = 0;
-    let mut name_len = 0;
+    let mut name_len = 0usize;
     let mut only_numeric = true;
     let mut format_err = false;
     take_while1(i, |c| {
